@@ -1,9 +1,21 @@
 #!/bin/bash
-# Runs every registered check once (tier = $1, default quick) and summarises exit codes.
+# Runs every registered check once (tier = $1, default quick), summarises exit codes, and prints what each
+# check excluded or left undetermined (read these: a large exclusion is a hole in coverage).
 TIER=${1:-quick}
 cd /verif
 for p in C01 C02 C03 C04 C05 C06 C07 C08 C09 C10 C11 C12 C13 C14 C15 C16 C17; do
   out=$(./check $p --tier $TIER 2>&1); rc=$?
   echo "$p exit=$rc $(echo "$out" | grep '^SUMMARY' | sed 's/SUMMARY property=[A-Z0-9]* //')"
   echo "$out" | grep '^VIOLATION' | cut -c1-240
+  python3 - "$p" <<'PY'
+import json,sys
+try:
+    e=json.load(open(f'/verif/evidence/{sys.argv[1]}.json'))
+    x=e['coverage'].get('excluded_or_undetermined') or {}
+    if x:
+        top=sorted(x.items(), key=lambda kv:-kv[1])[:5]
+        print('    excluded/undetermined:', '; '.join(f'{k}={v}' for k,v in top))
+except Exception as ex:
+    print('    (no evidence)', ex)
+PY
 done
